@@ -142,13 +142,38 @@ def main():
         return 2
     replay_dir = None
     try:
-        for g in groups:
+        import threading
+        lock = threading.Lock()
+        state = {"exit": 0, "replay_dir": None}
+        main_stage_dir = stage_dir
+        extra_dirs = []
+
+        def bump(code):
+            with lock:
+                if code == 1 or (code == 2 and state["exit"] == 0):
+                    state["exit"] = code if state["exit"] != 1 else 1
+
+        def get_replay_dir():
+            with lock:
+                if state["replay_dir"] is None:
+                    state["replay_dir"] = vlib.stage(stage_name + "-replay", "replay", wide=(tier == "thorough"))
+                return state["replay_dir"]
+
+        def run_group(g):
             hs = g["harnesses"]
             if args.only:
                 hs = [h for h in hs if h in args.only.split(",")]
                 if not hs:
-                    continue
+                    return
             log = os.path.join(vlib.SCRATCH_ROOT, "%s.%s.log" % (stage_name, g.get("name", "g")))
+            # every group works on its own staged copy (its own crate path, so the
+            # concurrent cargo-kani invocations do not overwrite each other's artefacts)
+            if g is groups[0]:
+                stage_dir = main_stage_dir
+            else:
+                stage_dir = vlib.stage(stage_name + "-" + g.get("name", "g"), "kani", wide=(tier == "thorough"))
+                with lock:
+                    extra_dirs.append(stage_dir)
             # with a single job, concrete playback is requested up front: a failing
             # harness then prints its counterexample in the same run (Kani refuses
             # --concrete-playback together with --jobs)
@@ -159,8 +184,9 @@ def main():
                                 playback=(len(hs) == 1 or g.get("jobs", 8) == 1))
             if not res["harnesses"] and res["rc"] != 0:
                 tail = "\n".join(l for l in res["out"].splitlines() if l.startswith("error"))[:1500]
-                messages.append("build or tool failure in group %s: %s" % (g.get("name"), tail))
-                exit_code = max(exit_code, 2)
+                with lock:
+                    messages.append("build or tool failure in group %s: %s" % (g.get("name"), tail))
+                bump(2)
             for h in hs:
                 r = res["harnesses"].get(h)
                 c = vlib.classify(r, spec.get("expect_covers", {}).get(h))
@@ -178,8 +204,7 @@ def main():
                                          log_path=log + ".playback", playback=True,
                                          harness_timeout=g.get("harness_timeout_s", 1200), exact=True)
                     pb.update(parse_playback(pres["out"]))
-                if replay_dir is None:
-                    replay_dir = vlib.stage(stage_name + "-replay", "replay", wide=(tier == "thorough"))
+                rdir = get_replay_dir()
                 for h in failing:
                     hr = harness_results[h]
                     pick = pick_counterexample(pb.get(h, []))
@@ -190,12 +215,13 @@ def main():
                         continue
                     vals = pick[2]
                     hr["failed_assertion"] = pick[1]
-                    rr = native_replay(h, vals, replay_dir, features=g.get("features"))
+                    with lock:   # one native build at a time
+                        rr = native_replay(h, vals, rdir, features=g.get("features"))
                     hr["replay"] = {k: {"status": v["status"], "panic": v.get("panic")} for k, v in rr.items()}
                     hr["values"] = vals[:40]
                     statuses = [v["status"] for v in rr.values()]
                     if "reproduced" in statuses:
-                        site = " ".join(hr["failed_checks"] or [])
+                        site = " ".join(hr["failed_checks"] or []) + " " + (pick[1] or "")
                         panic = next((v["panic"] for v in rr.values() if v.get("panic")), "")
                         kf = next((k for k in known if k["harness"] == h and
                                    (k["site"] in site or k["site"] in (panic or ""))), None)
@@ -203,27 +229,41 @@ def main():
                                           "replay", "%s.%s.json" % (prop, h))
                         os.makedirs(os.path.dirname(rp), exist_ok=True)
                         json.dump({"property": prop, "harness": h, "values": vals, "failed_checks": hr["failed_checks"],
-                                   "native": rr,
+                                   "failed_assertion": pick[1], "wide": tier == "thorough", "native": rr,
                                    "how": "VERIF_REPLAY_VALS=%s <replay build>/verif_replay %s" % (",".join(vals), h)},
                                   open(rp, "w"), indent=1)
                         if kf:
                             hr["class"] = "known"
-                            print("KNOWN-FINDING: property=%s %s (harness %s)" % (prop, kf["what"], h))
+                            print("KNOWN-FINDING: property=%s %s (harness %s)" % (prop, kf["what"], h), flush=True)
                         else:
                             hr["class"] = "violation"
-                            print("VIOLATION property=%s replay=%s" % (prop, rp))
-                            ev["violations"] += 1
-                            exit_code = 1 if exit_code != 1 else 1
+                            print("VIOLATION property=%s replay=%s" % (prop, rp), flush=True)
+                            with lock:
+                                ev["violations"] += 1
+                            bump(1)
                     else:
                         hr["class"] = "inconclusive"
                         hr["note"] = "counterexample did not reproduce natively (model/stub/oracle artefact)"
             for h in hs:
                 c = harness_results[h]["class"]
-                if c in ("inconclusive", "vacuous") and exit_code == 0:
-                    exit_code = 2
+                if c in ("inconclusive", "vacuous"):
+                    bump(2)
+
+        # groups run concurrently (each is its own cargo-kani invocation; cargo
+        # serialises the builds, the solver runs overlap)
+        threads = [threading.Thread(target=run_group, args=(g,)) for g in groups]
+        for k, t in enumerate(threads):
+            t.start()
+            time.sleep(20 if k + 1 < len(threads) else 0)
+        for t in threads:
+            t.join()
+        exit_code = max(exit_code, state["exit"]) if state["exit"] != 1 else 1
+        replay_dir = state["replay_dir"]
     finally:
         if not args.keep:
             vlib.cleanup(stage_dir)
+            for d in locals().get("extra_dirs", []):
+                vlib.cleanup(d)
             if replay_dir:
                 vlib.cleanup(replay_dir)
     finish(ev, prop, t0, harness_results, spec, messages, exit_code)
